@@ -4,6 +4,7 @@
 mod c07;
 mod c08;
 mod c11;
+mod c12;
 mod c13;
 mod c16;
 mod c20;
@@ -48,6 +49,7 @@ fn run_case(v: &Value) -> Value {
         7 => c07::run(op, args),
         8 => c08::run(op, args),
         11 => c11::run(op, args),
+        12 => POOL.with(|pool| c12::run(pool, op, args)),
         13 => POOL.with(|pool| c13::run(pool, op, args)),
         16 => c16::run(op, args),
         20 => POOL.with(|pool| c20::run(pool, op, args)),
